@@ -804,8 +804,9 @@ private def exGo : journal.Day :=
     Transactions := [txGo exCur ⟨1⟩ ⟨2⟩ exTb, txGo exCur ⟨1⟩ ⟨2⟩ exTa]
     Closings := [closeGo ⟨0⟩ ⟨738885, exBank⟩] }
 
-private theorem exTRelB (t : Knut.Transaction) : TRelB exCur (txGo exCur ⟨1⟩ ⟨2⟩ t) t :=
-  ⟨rfl, rfl, TransProcess.AllRel_map _ (fun p => TransProcess.PRel_postingGo exCur ⟨2⟩ p) t.postings⟩
+/-- the Go transaction `txGo` builds stands for its model transaction -/
+theorem TRelB_txGo (cur : String → Bool) (s1 s2 : Ref) (t : Knut.Transaction) : TRelB cur (txGo cur s1 s2 t) t :=
+  ⟨rfl, rfl, TransProcess.AllRel_map _ (fun p => TransProcess.PRel_postingGo cur s2 p) t.postings⟩
 
 /-- every hypothesis of `Transcode_agrees` holds for the day above and the "algorithm" that reverses the slice (which happens to
 sort it): the theorem is not vacuous -/
@@ -821,9 +822,9 @@ example : beancount.Transcode "" ⟨[exGo]⟩ (commodityGo exCur "C4F") (fun _ x
     intro b hb
     have e : b = txGo exCur ⟨1⟩ ⟨2⟩ exTb := by simpa using hb
     subst e
-    rw [Compare_TRelB exCur _ _ exTb exTa (exTRelB exTb) (exTRelB exTa)]
+    rw [Compare_TRelB exCur _ _ exTb exTa (TRelB_txGo exCur ⟨1⟩ ⟨2⟩ exTb) (TRelB_txGo exCur ⟨1⟩ ⟨2⟩ exTa)]
     decide +kernel
-  · exact .cons ⟨.cons rfl .nil, .cons (exTRelB exTb) (.cons (exTRelB exTa) .nil), .cons rfl .nil⟩ .nil
+  · exact .cons ⟨.cons rfl .nil, .cons (TRelB_txGo exCur ⟨1⟩ ⟨2⟩ exTb) (.cons (TRelB_txGo exCur ⟨1⟩ ⟨2⟩ exTa) .nil), .cons rfl .nil⟩ .nil
   · intro d hd
     have e : d = exDay := by simpa using hd
     subst e
